@@ -19,7 +19,7 @@ let run mode file =
   let acct = (mode = "c07" || mode = "c08") in
   let meta_written = ref false and fail_after_meta = ref false and fail_kind = ref "" in
   let d5 = ref false and unmapped = ref false in
-  let last_dump = ref "" in
+  let last_dump = ref "t:" and pending_dump = ref "t:" in
   let last_reach = ref (-1) in
   let ic = open_in file in
   let cases = ref 0 and ops = ref 0 and mism = ref 0 and pfail = ref 0 and imgs = ref 0 in
@@ -48,7 +48,8 @@ let run mode file =
     match split_ws line with
     | "case" :: id :: _ ->
       incr cases; case_id := id; opidx := 0; Buffer.clear optext; flags := []; dead := false;
-      s.committed <- empty_root; s.work <- None; Hashtbl.reset s.readers; s.stale <- false; d5 := false; unmapped := false; last_reach := -1
+      s.committed <- empty_root; s.work <- None; Hashtbl.reset s.readers; s.stale <- false; d5 := false; unmapped := false; last_reach := -1;
+      last_dump := "t:"; pending_dump := "t:"
     | "io" :: kind :: off :: _ :: rest ->
       if rest = ["FAIL"] then (fail_kind := kind; fail_after_meta := !meta_written)
       else if kind = "write" && int_of_string off < 2 * s.ps then meta_written := true
@@ -64,7 +65,9 @@ let run mode file =
                                       | ("img" :: _) as c -> c
                                       | ("check" :: _) as c -> c
                                       | ("bstats" :: _) as c -> c
-                                      | ["dump"; "w"] -> (match res with "ok" :: d :: _ -> last_dump := d | ["ok"] -> last_dump := "t:" | _ -> ()); ["skip"]
+                                      | ["dump"; "w"] -> (match res with "ok" :: d :: _ -> pending_dump := d | ["ok"] -> pending_dump := "t:" | _ -> ()); ["skip"]
+                                      | ["commit"] -> (match res with "ok" :: _ -> last_dump := !pending_dump | _ -> ()); ["skip"]
+                                      | "commitfail" :: _ -> (match res with "ok" :: _ -> last_dump := !pending_dump | _ -> last_dump := "?"); ["skip"]
                                       | "open" :: _ -> ["skip"]
                                       | _ -> ["skip"])) with
        | ["skip"] -> ()
@@ -155,7 +158,7 @@ let run mode file =
                if mode = "c12" then begin
                  (* C12: what the independent reader decodes = what the API reported for the state just committed *)
                  let dtxt = digest_or_text (dump_root v.Layout.v_root) in
-                 if dtxt <> !last_dump then propfail "decoded_content" (Printf.sprintf "decoder=%s api=%s" (cut dtxt) (cut !last_dump));
+                 if !last_dump <> "?" && dtxt <> !last_dump then propfail "decoded_content" (Printf.sprintf "decoder=%s api=%s" (cut dtxt) (cut !last_dump));
                  flag "img"
                end;
                if acct then begin
